@@ -73,7 +73,7 @@ def finish(prop, tier, seed, contracts, results, extra, t0):
                    "where": o.get("where"), "backend": o.get("backend"), "model_validated": o.get("validated"),
                    "solver_output": o.get("why", ""), "model_inputs": o.get("inputs"), "info": o.get("info")}
             found = None
-            if c is not None and o.get("inputs") is not None and (c.spec is not None or getattr(c, "fn", None) is not None):
+            if c is not None and o.get("inputs") is not None and (c.spec is not None or getattr(c, "fn", None) is not None or getattr(c, "native_spec", None) is not None):
                 try:
                     j = replay.judge(c, o["inputs"])
                     rep["model_replay"] = j
